@@ -41,7 +41,15 @@ func main() {
 	noEvidence := flag.Bool("no-evidence", false, "do not write evidence (used for scratch copies)")
 	list := flag.Bool("list", false, "list implemented properties")
 	tags := flag.String("tags", "", "extra build tags")
+	all := flag.Bool("all", false, "tooling: load the tree once and run every property's quick rules on it (no evidence written); exit 1 if any reports")
 	flag.Parse()
+	if *all {
+		if *verif == "" {
+			exe, _ := os.Executable()
+			*verif = filepath.Dir(filepath.Dir(exe))
+		}
+		os.Exit(runAll(*repo, *verif, *tags))
+	}
 
 	if *list {
 		fmt.Println(strings.Join(rules.IDs(), " "))
@@ -80,6 +88,46 @@ func main() {
 	}
 	code := run(*prop, *tier, *repo, *verif, *tags, replayKey, !*noEvidence, f)
 	os.Exit(code)
+}
+
+// runAll is used by the cross-run tooling (tools/tryequiv_all.sh): one load, all properties, nothing written.
+func runAll(repo, verif, tags string) (code int) {
+	defer func() {
+		if r := recover(); r != nil {
+			fmt.Printf("ERROR checker panic: %v\n%s\n", r, debug.Stack())
+			code = 2
+		}
+	}()
+	cfg := engine.Config{Dir: repo}
+	if tags != "" {
+		cfg.Tags = strings.Split(tags, ",")
+	}
+	p, err := engine.Load(cfg)
+	if err != nil {
+		fmt.Println("ERROR", err)
+		return 2
+	}
+	if err := p.CheckTrustedBase(); err != nil {
+		fmt.Println("ERROR trusted base:", err)
+		return 2
+	}
+	p.ApplyReference(filepath.Join(verif, "reference_funcs.json"))
+	known, err := report.LoadKnown(filepath.Join(verif, "known_findings.json"))
+	if err != nil {
+		fmt.Println("ERROR", err)
+		return 2
+	}
+	for _, id := range rules.IDs() {
+		t0 := time.Now()
+		r := report.NewRun(id, "quick")
+		r.SetStart(t0)
+		ctx := &rules.Ctx{P: p, R: r, Tier: "quick", VerifDir: verif}
+		rules.Lookup(id)(ctx)
+		if rc := r.Finish(verif, known, "verifcheck -all", trusted, false); rc != 0 {
+			code = 1
+		}
+	}
+	return code
 }
 
 func run(prop, tier, repo, verif, tags, replayKey string, evidence bool, f rules.PropFunc) (code int) {
